@@ -3,13 +3,19 @@
 Decides: encode/decode key-set agreement for every pair (R1); constructor-field coverage (R2); the
 frozen wire-format table and argument tags (R3); last-'#' split of versioned keys (R4); dispatch
 order in encode_arg (R5).  Value-level round trips (datetime zones, NaN, non-ASCII) are not decided.
+
+The rules follow VALUES, not spellings: "the field a constructor parameter is restored from" is the set
+of state keys in the value flow of the argument (through temporaries, inlined helper results, results
+built by a loop), "the tags an encoder emits" are the values the `type` entry can hold, and so on.
 """
 import ast
 
 from .. import astutil as A
 from ..fa import FA
+from ..loader import AnalysisError
 from .valeq import check_typed_identity, check_json_bytes, check_enum_distinct
 from .ladders import extract_ladder, check_ladder_order, repo_subclass_pairs
+from .fresh import flow_nodes, alternatives, param_rooted, return_cases, at_of
 
 MC = "serialization.MementoCodec"
 
@@ -38,19 +44,106 @@ WIRE_FIELDS = {
 FN_REF_TAG = "twosigma.memento.FunctionReference"
 
 
-def _ret_dict(fa: FA):
-    for r in fa.returns():
-        if isinstance(r.value, ast.Dict):
-            return r.value
+def _first_param(fa: FA, default: str) -> str:
+    ps = [p for p in fa.fi.params if p not in ("cls", "self")]
+    return ps[0] if ps else default
+
+
+def _dict_items(node):
+    """[(key text or None, value)] of a dict literal / dict(k=v, ...) call; None for anything else."""
+    if isinstance(node, ast.Dict):
+        return [(A.const_str(k) if k is not None else None, v) for k, v in zip(node.keys, node.values)]
+    if isinstance(node, ast.Call) and isinstance(node.func, ast.Name) and node.func.id == "dict" and not node.args:
+        return [(k.arg, k.value) for k in node.keywords]
     return None
 
 
-def _state_keys(fa: FA, var="state"):
+def _emitted(fa: FA):
+    """{wire field: [(value expr, cfg node)]} for the object an encoder returns: a dict literal (returned
+    directly, through a result variable, or as the arms of a conditional), plus `result['k'] = v` stores
+    into a returned result variable.  None when the function does not return such an object."""
+    out = {}
+    found = False
+    for r in fa.returns():
+        if r.value is None or not fa.nodes(r):
+            continue
+        at = fa.nodes(r)[0]
+        todo = list(alternatives(fa, r.value, at))
+        budget = 40
+        while todo:
+            budget -= 1
+            if budget < 0:
+                return None
+            (alt, a_) = todo.pop()
+            items = _dict_items(alt)
+            if items is None:
+                if A.is_none(alt):
+                    continue
+                return None
+            found = True
+            for i, (k, v) in enumerate(items):
+                if k is None:
+                    # {**base, 'k': v}: the entries of the spliced dict(s) are emitted too
+                    if isinstance(alt, ast.Dict) and alt.keys[i] is None:
+                        todo += alternatives(fa, v, a_)
+                        continue
+                    return None
+                out.setdefault(k, []).append((v, a_))
+        if isinstance(r.value, ast.Name):
+            for st in fa.stmts(ast.Assign):
+                for t in st.targets:
+                    if isinstance(t, ast.Subscript) and isinstance(t.value, ast.Name) and t.value.id == r.value.id and A.const_str(t.slice) and fa.nodes(st):
+                        out.setdefault(A.const_str(t.slice), []).append((st.value, fa.nodes(st)[0]))
+    return out if found else None
+
+
+def _state_key_of(fa: FA, n, at, param):
+    """The wire field read by `state['k']` / `state.get('k')` (state: the decoder's parameter or a plain alias)."""
+    base = key = None
+    if isinstance(n, ast.Subscript) and A.const_str(n.slice):
+        base, key = n.value, A.const_str(n.slice)
+    elif isinstance(n, ast.Call) and A.call_attr(n) == "get" and n.args and A.const_str(n.args[0]) and isinstance(n.func, ast.Attribute):
+        base, key = n.func.value, A.const_str(n.args[0])
+    if key is None or not isinstance(base, ast.Name):
+        return None
+    if base.id == param or (at is not None and param_rooted(fa, base, at, param)):
+        return key
+    return None
+
+
+def _state_keys(fa: FA):
+    param = _first_param(fa, "state")
     out = set()
     for n in A.walk_body(fa.node):
-        if isinstance(n, ast.Subscript) and A.norm(n.value) == var and A.const_str(n.slice):
-            out.add(A.const_str(n.slice))
+        if isinstance(n, (ast.Subscript, ast.Call)):
+            ids = fa.nodes(n) if not (isinstance(n, ast.Subscript) and isinstance(n.value, ast.Name) and n.value.id == param) else [None]
+            k = _state_key_of(fa, n, ids[0] if ids else None, param)
+            if k:
+                out.add(k)
     return out
+
+
+def _keys_in_flow(fa: FA, expr, at):
+    """State keys the VALUE of expr is computed from."""
+    param = _first_param(fa, "state")
+    out = set()
+    for (n, a_) in flow_nodes(fa, expr, at):
+        k = _state_key_of(fa, n, a_, param)
+        if k:
+            out.add(k)
+    return out
+
+
+def _attrs_in_flow(fa: FA, expr, at, param):
+    out = set()
+    for (n, a_) in flow_nodes(fa, expr, at):
+        if isinstance(n, ast.Attribute) and isinstance(n.value, ast.Name) and (n.value.id == param or param_rooted(fa, n.value, a_, param)):
+            out.add(n.attr)
+    return out
+
+
+def _calls_in_flow(fa: FA, expr, at, name):
+    return [n for (n, a_) in flow_nodes(fa, expr, at) if isinstance(n, ast.Call) and A.call_attr(n) == name]
 
 
 def _ctor_params(ck, cls_qual):
@@ -60,24 +153,114 @@ def _ctor_params(ck, cls_qual):
     return [p for p in init.params if p != "self"]
 
 
+def _call_args(call, params):
+    """{parameter: value expr} of a call, positional arguments mapped through the callee's parameter list;
+    None when it cannot be told (*args / **kwargs)."""
+    out = {}
+    if any(isinstance(a, ast.Starred) for a in call.args) or any(k.arg is None for k in call.keywords) or len(call.args) > len(params):
+        return None
+    for i, a in enumerate(call.args):
+        out[params[i]] = a
+    for k in call.keywords:
+        out[k.arg] = k.value
+    return out
+
+
+def _is_chain(fa: FA, e, at, param, attrs) -> bool:
+    """e is <param>.<attrs...> (param possibly through an alias)."""
+    for a in reversed(attrs):
+        if not (isinstance(e, ast.Attribute) and e.attr == a):
+            return False
+        e = e.value
+    return isinstance(e, ast.Name) and (e.id == param or param_rooted(fa, e, at, param))
+
+
+# ---- versioned content keys -----------------------------------------------------------------------------
+def _none_cases(fa: FA, what):
+    """(conditions under which the function returns None, the other (value, at) cases) — or None."""
+    cases = return_cases(fa)
+    if cases is None:
+        raise AnalysisError("%s: too many paths to tell when %s is None" % (fa.qual, what))
+    none_conds, others = set(), []
+    for (v, at, conds) in cases:
+        if v is None or A.is_none(v):
+            none_conds |= conds
+        else:
+            others.append((v, at))
+    from .fresh import _simplify
+    return _simplify(none_conds), others
+
+
+def _last_cut(dv: FA, e, at, param, sep):
+    """Which side of the LAST `sep` of the parameter string does `e` denote: 'before' / 'after' / None."""
+    x = dv.expand(e, at)
+
+    def is_state(n):
+        return isinstance(n, ast.Name) and n.id == param
+
+    def is_rfind(n):
+        return isinstance(n, ast.Call) and A.call_attr(n) in ("rfind", "rindex") and isinstance(n.func, ast.Attribute) and is_state(n.func.value) \
+            and len(n.args) == 1 and A.const_str(n.args[0]) == sep
+
+    if isinstance(x, ast.Subscript) and is_state(x.value) and isinstance(x.slice, ast.Slice) and x.slice.step is None:
+        lo, up = x.slice.lower, x.slice.upper
+        if (lo is None or (isinstance(lo, ast.Constant) and lo.value == 0)) and up is not None and is_rfind(up):
+            return "before"
+        if up is None and isinstance(lo, ast.BinOp) and isinstance(lo.op, ast.Add):
+            a_, b_ = lo.left, lo.right
+            n = len(sep)
+            if (is_rfind(a_) and isinstance(b_, ast.Constant) and b_.value == n) or (is_rfind(b_) and isinstance(a_, ast.Constant) and a_.value == n):
+                return "after"
+    # state.rpartition(sep)[0] / [2] ; state.rsplit(sep, 1)[0] / [1]
+    if isinstance(x, ast.Subscript) and isinstance(x.value, ast.Call) and isinstance(x.value.func, ast.Attribute) and is_state(x.value.func.value) \
+            and x.value.args and A.const_str(x.value.args[0]) == sep and isinstance(x.slice, ast.Constant):
+        c = x.value
+        if c.func.attr == "rpartition" and len(c.args) == 1:
+            return {0: "before", 2: "after", -1: "after"}.get(x.slice.value)
+        if c.func.attr == "rsplit" and len(c.args) == 2 and A.norm(c.args[1]) == "1":
+            return {0: "before", 1: "after", -1: "after"}.get(x.slice.value)
+    # key, _, version = state.rpartition(sep)
+    if isinstance(e, ast.Name):
+        ds = dv.df.reaching(at, e.id)
+        if len(ds) == 1 and ds[0].kind == "unpack" and isinstance(ds[0].stmt, ast.Assign) and isinstance(ds[0].stmt.targets[0], (ast.Tuple, ast.List)):
+            c = dv.expand(ds[0].value, ds[0].node)
+            names = [A.norm(t) for t in ds[0].stmt.targets[0].elts]
+            if isinstance(c, ast.Call) and isinstance(c.func, ast.Attribute) and is_state(c.func.value) and c.args and A.const_str(c.args[0]) == sep and e.id in names:
+                i = names.index(e.id)
+                if c.func.attr == "rpartition" and len(c.args) == 1 and len(names) == 3:
+                    return {0: "before", 2: "after"}.get(i)
+                if c.func.attr == "rsplit" and len(c.args) == 2 and A.norm(c.args[1]) == "1" and len(names) == 2:
+                    return {0: "before", 1: "after"}.get(i)
+    return None
+
+
 def check_versioned_key_codec(ck, R4):
     ev = FA(ck, MC + ".encode_versioned_data_source_key")
     dv = FA(ck, MC + ".decode_versioned_data_source_key")
-    tm = [A.str_template(r.value) for r in ev.returns() if r.value is not None and not A.is_none(r.value)]
-    tm = [t for t in tm if t is not None]
-    ok4 = len(tm) == 1 and tm[0][0] == "{}#{}" and [A.norm(a) for a in tm[0][1]] == ["content_key.key", "content_key.version"]
+    ep = _first_param(ev, "content_key")
+    dp = _first_param(dv, "state")
+    e_none, e_vals = _none_cases(ev, "the encoded key")
+    d_none, d_vals = _none_cases(dv, "the decoded key")
+    # join: every non-None result is <key> '#' <version> of the parameter
+    ok4 = bool(e_vals)
+    for (v, at) in e_vals:
+        tm = A.str_template(ev.expand(v, at))
+        ok4 = ok4 and tm is not None and tm[0] == "{}#{}" and len(tm[1]) == 2 and _is_chain(ev, tm[1][0], at, ep, ["key"]) and _is_chain(ev, tm[1][1], at, ep, ["version"])
     ck.ob(R4, ev.key(None, "join"), ok4, "key#version" if ok4 else "versioned keys are not written as '{}#{}'.format(key, version)", ev.where())
-    rf = [c for c in dv.calls("rfind")]
-    ok5 = len(rf) == 1 and A.const_str(rf[0].args[0]) == "#" and not dv.calls("find") and not dv.calls("split")
-    ctor = [c for c in dv.calls("VersionedDataSourceKey")]
-    ok5 = ok5 and len(ctor) == 1 and A.kwarg(ctor[0], "key") is not None and A.kwarg(ctor[0], "version") is not None \
-        and dv.xnorm(A.kwarg(ctor[0], "key"), dv.nodes(ctor[0])[0]) in ("state[0:state.rfind('#')]", "state[:state.rfind('#')]") \
-        and dv.xnorm(A.kwarg(ctor[0], "version"), dv.nodes(ctor[0])[0]) == "state[state.rfind('#') + 1:]"
+    # split: every non-None result is VersionedDataSourceKey(key=<before the last '#'>, version=<after it>)
+    ok5 = bool(d_vals) and not [c for c in dv.calls() if A.call_attr(c) in ("find", "index", "partition", "split") and c.args and A.const_str(c.args[0]) == "#"]
+    for (v, at) in d_vals:
+        if not (isinstance(v, ast.Call) and A.call_attr(v) == "VersionedDataSourceKey"):
+            ok5 = False
+            continue
+        args = _call_args(v, ["key", "version"])
+        ok5 = ok5 and args is not None and set(args) == {"key", "version"} \
+            and _last_cut(dv, args["key"], at, dp, "#") == "before" and _last_cut(dv, args["version"], at, dp, "#") == "after"
     ck.ob(R4, dv.key(None, "split-last"), ok5, "split at the last '#': the key part may itself contain '#' (versions in qualified names)" if ok5 else
           "versioned keys are not split at the last '#': a key containing '#' is cut in the wrong place", dv.where())
-    none_ok = any(A.norm(i.test) == "content_key is None" for i in ev.stmts(ast.If)) and any(A.norm(i.test) == "state is None" for i in dv.stmts(ast.If))
+    # None passes through both ways: the result is None exactly when the parameter is
+    none_ok = e_none == {frozenset({("%s is None" % ep, True)})} and d_none == {frozenset({("%s is None" % dp, True)})}
     ck.ob(R4, ev.key(None, "none"), none_ok, "a missing content key round-trips as null" if none_ok else "None content keys are not passed through", ev.where())
-
 
 
 def check_reference_resolved_afresh(ck, R):
@@ -93,11 +276,15 @@ def check_reference_resolved_afresh(ck, R):
         "decode_fn_reference can return a reference without resolving it through from_qualified_name on this call: a reference "
         "remembered from an earlier decode keeps designating the function as it was then (edited / removed callees stay "
         "'local' at their old version; partial arguments of the first decode are reused)")
+    callee = ck.repo.try_func("reference.FunctionReference.from_qualified_name")
+    cparams = [p for p in callee.params if p not in ("self", "cls")] if callee is not None else []
     for c in df.calls("from_qualified_name"):
         want = {"qualified_name": "qualifiedName", "partial_args": "partialArgs", "partial_kwargs": "partialKwargs", "parameter_names": "parameterNames"}
+        given = _call_args(c, cparams) or {k.arg: k.value for k in c.keywords if k.arg}
+        at = at_of(df, c)
         for kw, field in want.items():
-            v = A.kwarg(c, kw)
-            ok = v is not None and (field in A.strings_in(v) or ("const:%r" % field) in df.deps(v))
+            v = given.get(kw)
+            ok = v is not None and field in _keys_in_flow(df, v, at)
             ck.ob(R, df.key(c, "state-field:" + field), ok, "%s is taken from state['%s']" % (kw, field) if ok else
                   "from_qualified_name is not given %s from state['%s']" % (kw, field), df.where(c))
 
@@ -114,11 +301,189 @@ def check_decoders_pure(ck, R):
                   "%s takes %s: a value decoded elsewhere can be substituted for what the encoded state designates (e.g. one resolved function "
                   "reference reused for invocations with different partial arguments)" % (name, ps), A.loc(m, m.node))
     check_reference_resolved_afresh(ck, R)
+    # each recorded invocation is decoded from its own element of state['invocations']: the value handed to the
+    # constructor flows from decode_fn_reference_with_args(<element>) calls only
     di = FA(ck, MC + ".decode_invocation_metadata")
-    comps = [n for n in A.walk_body(di.node) if isinstance(n, ast.ListComp) and "invocations" in A.norm(n.generators[0].iter)]
-    ok = len(comps) == 1 and A.norm(comps[0].elt) == "cls.decode_fn_reference_with_args(%s)" % A.norm(comps[0].generators[0].target)
+    ok = False
+    ctor = di.calls("InvocationMetadata")
+    if len(ctor) == 1:
+        args = _call_args(ctor[0], _ctor_params(ck, "metadata.InvocationMetadata")) or {}
+        v = args.get("invocations")
+        if v is not None:
+            at = at_of(di, ctor[0])
+            calls = _calls_in_flow(di, v, at, "decode_fn_reference_with_args")
+            ok = bool(calls)
+            for c in calls:
+                elem = c.args[0] if len(c.args) == 1 and not c.keywords else None
+                per_element = False
+                if isinstance(elem, ast.Name):
+                    comp = di.enclosing(c, (ast.ListComp, ast.GeneratorExp, ast.SetComp))
+                    if comp is not None and any(elem.id in A.names_in(g.target) and "invocations" in _keys_in_flow(di, g.iter, at_of(di, c)) for g in comp.generators):
+                        per_element = True
+                    else:
+                        ds = di.df.reaching(at_of(di, c), elem.id) if di.nodes(c) else []
+                        per_element = bool(ds) and all(d.kind in ("for", "unpack") and d.value is not None and "invocations" in _keys_in_flow(di, d.value, d.node) for d in ds)
+                ok = ok and per_element
     ck.ob(R, di.key(None, "invocations-one-by-one"), ok, "each recorded invocation is decoded from its own state" if ok else
           "recorded invocations are not decoded one by one with decode_fn_reference_with_args(<element>)", di.where())
+
+
+# ---- argument tags ----------------------------------------------------------------------------------------
+def _static(fa: FA, e, at, depth=0):
+    """The literal a table name denotes: a local bound once, a module-level NAME = <literal>, a class-level
+    attribute read as cls.NAME / self.NAME / <Class>.NAME; wrappers tuple(..) / list(..) / frozenset(..) / set(..) /
+    dict(..) of one literal are looked through.  Anything else is returned as it is."""
+    if depth > 6 or e is None:
+        return e
+    if isinstance(e, ast.Name):
+        if fa.df.is_local(e.id):
+            ds = fa.df.reaching(at, e.id) if at is not None else []
+            if len(ds) == 1 and ds[0].kind == "assign" and ds[0].value is not None:
+                return _static(fa, ds[0].value, ds[0].node, depth + 1)
+            return e
+        v = fa.fi.module.assigns.get(e.id)
+        return _static(fa, v, None, depth + 1) if v is not None else e
+    if isinstance(e, ast.Attribute) and isinstance(e.value, ast.Name):
+        cls = getattr(fa.fi, "cls", None)
+        cnode = getattr(cls, "node", None)
+        if cnode is not None and (e.value.id in ("cls", "self") or e.value.id == cnode.name):
+            for st in cnode.body:
+                if isinstance(st, ast.Assign) and any(isinstance(t, ast.Name) and t.id == e.attr for t in st.targets):
+                    return _static(fa, st.value, None, depth + 1)
+                if isinstance(st, ast.AnnAssign) and isinstance(st.target, ast.Name) and st.target.id == e.attr and st.value is not None:
+                    return _static(fa, st.value, None, depth + 1)
+        return e
+    if isinstance(e, ast.Call) and isinstance(e.func, ast.Name) and e.func.id in ("tuple", "list", "frozenset", "set", "dict", "OrderedDict") and len(e.args) == 1 and not e.keywords:
+        return _static(fa, e.args[0], at, depth + 1)
+    return e
+
+
+def _elements(fa: FA, e, at):
+    """Members of a literal collection (keys for a dict, also through .keys()); None when it is not one."""
+    if isinstance(e, ast.Call) and A.call_attr(e) == "keys" and not e.args and isinstance(e.func, ast.Attribute):
+        e = e.func.value
+    x = _static(fa, e, at)
+    if isinstance(x, (ast.Tuple, ast.List, ast.Set)):
+        return list(x.elts)
+    if isinstance(x, ast.Dict) and all(k is not None for k in x.keys):
+        return list(x.keys)
+    return None
+
+
+def _table_values(fa: FA, e, at):
+    """TABLE[k] / TABLE.get(k[, default]) on a literal dict -> the value expressions it may yield; else None."""
+    if isinstance(e, ast.Subscript):
+        x = _static(fa, e.value, at)
+        if isinstance(x, ast.Dict) and x is not e.value:
+            return list(x.values)
+    if isinstance(e, ast.Call) and A.call_attr(e) == "get" and isinstance(e.func, ast.Attribute) and 1 <= len(e.args) <= 2:
+        x = _static(fa, e.func.value, at)
+        if isinstance(x, ast.Dict) and x is not e.func.value:
+            return list(x.values) + [a for a in e.args[1:] if not A.is_none(a)]
+    return None
+
+
+def _literal_rows(fa: FA, it, at):
+    """Rows of a literal table a loop walks: ((a, b), (c, d)) / [..] / {k: v}.items() / a module-level NAME
+    holding one of those.  -> list of lists of exprs, or None."""
+    if isinstance(it, ast.Call) and A.call_attr(it) == "items" and not it.args and isinstance(it.func, ast.Attribute):
+        d = _static(fa, it.func.value, at)
+        if isinstance(d, ast.Dict) and all(k is not None for k in d.keys):
+            return [[k, v] for k, v in zip(d.keys, d.values)]
+        return None
+    it = _static(fa, it, at)
+    if isinstance(it, (ast.Tuple, ast.List)):
+        rows = []
+        for e in it.elts:
+            if not isinstance(e, (ast.Tuple, ast.List)):
+                return None
+            rows.append(list(e.elts))
+        return rows
+    return None
+
+
+def _name_values(fa: FA, name: ast.Name, at):
+    """[(expr, at)] the local may hold: assigned values, or its column of a literal table a loop walks."""
+    if not fa.df.is_local(name.id):
+        v = fa.fi.module.assigns.get(name.id)
+        if v is None:
+            raise AnalysisError("%s: cannot tell what `%s` holds" % (fa.qual, name.id))
+        return [(v, at)]
+    out = []
+    ds = fa.df.reaching(at, name.id)
+    if not ds:
+        raise AnalysisError("%s: `%s` has no reaching definition" % (fa.qual, name.id))
+    for d in ds:
+        if d.kind == "assign" and d.value is not None:
+            out.append((d.value, d.node))
+        elif d.kind in ("for", "unpack") and isinstance(d.stmt, (ast.For, ast.AsyncFor)):
+            tg = d.stmt.target
+            rows = _literal_rows(fa, d.stmt.iter, d.node)
+            if rows is None:
+                raise AnalysisError("%s: `%s` is bound by a loop over something other than a literal table" % (fa.qual, name.id))
+            if isinstance(tg, ast.Name):
+                raise AnalysisError("%s: `%s` holds whole rows of a table" % (fa.qual, name.id))
+            idx = [i for i, t in enumerate(tg.elts) if isinstance(t, ast.Name) and t.id == name.id]
+            if len(idx) != 1 or any(len(r) != len(tg.elts) for r in rows):
+                raise AnalysisError("%s: cannot match `%s` with a column of the table" % (fa.qual, name.id))
+            out += [(r[idx[0]], d.node) for r in rows]
+        else:
+            raise AnalysisError("%s: cannot tell what `%s` holds (%s binding)" % (fa.qual, name.id, d.kind))
+    return out
+
+
+def _members(fa: FA, e, at, depth=0):
+    """ResultType members the expression may denote."""
+    if depth > 8:
+        raise AnalysisError("%s: tag expression too deep" % fa.qual)
+    if isinstance(e, ast.Attribute) and isinstance(e.value, ast.Name) and e.value.id == "ResultType":
+        return {e.attr}
+    if A.is_none(e):
+        return set()  # a `found = None` initial value: None has no .name, so it never becomes a tag
+    if isinstance(e, ast.Subscript) and isinstance(e.value, ast.Name) and e.value.id == "ResultType" and A.const_str(e.slice):
+        return {A.const_str(e.slice)}
+    if isinstance(e, ast.IfExp):
+        return _members(fa, e.body, at, depth + 1) | _members(fa, e.orelse, at, depth + 1)
+    if isinstance(e, ast.Name):
+        out = set()
+        for (v, a_) in _name_values(fa, e, at):
+            out |= _members(fa, v, a_, depth + 1)
+        return out
+    tv = _table_values(fa, e, at)
+    if tv is not None:
+        out = set()
+        for v in tv:
+            out |= _members(fa, v, None, depth + 1)
+        return out
+    raise AnalysisError("%s: cannot tell which ResultType member `%s` is" % (fa.qual, A.short(e, 50)))
+
+
+def _tags(fa: FA, e, at, depth=0):
+    """The wire tags (strings) the expression may evaluate to."""
+    if depth > 8:
+        raise AnalysisError("%s: tag expression too deep" % fa.qual)
+    if A.const_str(e) is not None:
+        return {A.const_str(e)}
+    if A.is_none(e):
+        return set()  # a `tag = None` initial value is not a tag
+    if isinstance(e, ast.Attribute) and e.attr == "name":
+        return _members(fa, e.value, at, depth + 1)
+    if isinstance(e, ast.IfExp):
+        return _tags(fa, e.body, at, depth + 1) | _tags(fa, e.orelse, at, depth + 1)
+    if isinstance(e, ast.Name):
+        out = set()
+        for (v, a_) in _name_values(fa, e, at):
+            out |= _tags(fa, v, a_, depth + 1)
+        return out
+    tv = _table_values(fa, e, at)
+    if tv is not None:
+        out = set()
+        for v in tv:
+            out |= _tags(fa, v, None, depth + 1)
+        return out
+    if isinstance(e, ast.Call) and A.call_attr(e) == "str" and len(e.args) == 1:
+        return _tags(fa, e.args[0], at, depth + 1)
+    raise AnalysisError("%s: cannot tell which argument tag `%s` is" % (fa.qual, A.short(e, 50)))
 
 
 def check(ck):
@@ -133,12 +498,15 @@ def check(ck):
     ck.rule(R4, "versioned keys are joined with '#' and split at the last '#'", 2)
     ck.rule(R5, "encode_arg tests subclasses before superclasses (bool before number, timestamp before date)", 2)
     emitted = set()
+    em_by_pair = {}
+    ctor_by_pair = {}
     for (name, cls_qual) in PAIRS:
         enc = FA(ck, "%s.encode_%s" % (MC, name))
         dec = FA(ck, "%s.decode_%s" % (MC, name))
-        d = _ret_dict(enc)
+        d = _emitted(enc)
         ck.need(d is not None, "encode_%s does not return a dict literal" % name)
-        ekeys = {A.const_str(k) for k in d.keys}
+        em_by_pair[name] = (enc, d)
+        ekeys = set(d)
         dkeys = _state_keys(dec)
         emitted |= ekeys
         ok = ekeys == dkeys
@@ -152,53 +520,88 @@ def check(ck):
             if len(ctor) != 1:
                 ck.ob(R2, dec.key(None, "ctor"), False, "decode_%s does not rebuild a %s" % (name, ctor_name), dec.where())
                 continue
-            kws = [k.arg for k in ctor[0].keywords]
-            ok2 = sorted(kws) == sorted(params) and not ctor[0].args
+            given = _call_args(ctor[0], params)
+            kws = list(given) if given is not None else [k.arg for k in ctor[0].keywords]
+            ok2 = given is not None and sorted(kws) == sorted(params)
             ck.ob(R2, dec.key(ctor[0], "ctor-params"), ok2, "%s(%s) is rebuilt with every constructor parameter" % (ctor_name, ", ".join(params)) if ok2 else
-                  "%s takes (%s) but the decoder passes (%s): a field is lost or not restored" % (ctor_name, ", ".join(params), ", ".join(kws)), dec.where(ctor[0]))
+                  "%s takes (%s) but the decoder passes (%s): a field is lost or not restored" % (ctor_name, ", ".join(params), ", ".join(str(k) for k in kws)), dec.where(ctor[0]))
             # every param is fed from a distinct state key; every key is consumed
             used = set()
-            for k in ctor[0].keywords:
-                ks = {A.const_str(n.slice) for n in ast.walk(k.value) if isinstance(n, ast.Subscript) and A.norm(n.value) == "state" and A.const_str(n.slice)}
+            at = at_of(dec, ctor[0])
+            ctor_by_pair[name] = (dec, given or {}, at)
+            for (p, v) in (given or {}).items():
+                ks = _keys_in_flow(dec, v, at)
                 used |= ks
-                ck.ob(R2, dec.key(ctor[0], "fed:" + (k.arg or "?")), len(ks) == 1, "%s is restored from %s" % (k.arg, sorted(ks)) if len(ks) == 1 else
-                      "%s is not restored from exactly one encoded field (%s)" % (k.arg, sorted(ks)), dec.where(ctor[0]))
+                ck.ob(R2, dec.key(ctor[0], "fed:" + (p or "?")), len(ks) == 1, "%s is restored from %s" % (p, sorted(ks)) if len(ks) == 1 else
+                      "%s is not restored from exactly one encoded field (%s)" % (p, sorted(ks)), dec.where(ctor[0]))
             ck.ob(R2, dec.key(ctor[0], "all-keys-consumed"), used == dkeys, "every encoded field is consumed" if used == dkeys else
                   "encoded fields %s are read but not passed to the constructor" % sorted(dkeys - used), dec.where(ctor[0]))
             # the encoder reads one attribute of the object per field
             attrs = set()
-            obj = enc.fi.params[1] if len(enc.fi.params) > 1 else "obj"
-            for v in d.values:
-                for n in ast.walk(v):
-                    if isinstance(n, ast.Attribute) and isinstance(n.value, ast.Name) and n.value.id == obj:
-                        attrs.add(n.attr)
+            obj = _first_param(enc, "obj")
+            for vals in d.values():
+                for (v, a_) in vals:
+                    attrs |= _attrs_in_flow(enc, v, a_, obj)
             ok3 = len(attrs) == len(params)
             ck.ob(R2, enc.key(None, "reads-all-fields"), ok3, "the encoder reads %d attributes for %d constructor fields" % (len(attrs), len(params)) if ok3 else
                   "the encoder reads attributes %s but %s has fields %s" % (sorted(attrs), ctor_name, params), enc.where())
         else:
             fq = [c for c in dec.calls("from_qualified_name")]
-            okq = len(fq) == 1 and sorted(k.arg for k in fq[0].keywords) == ["parameter_names", "partial_args", "partial_kwargs", "qualified_name"]
+            callee = ck.repo.try_func("reference.FunctionReference.from_qualified_name")
+            cparams = [p for p in callee.params if p not in ("self", "cls")] if callee is not None else []
+            given = (_call_args(fq[0], cparams) if len(fq) == 1 else None) or {}
+            okq = len(fq) == 1 and sorted(given) == ["parameter_names", "partial_args", "partial_kwargs", "qualified_name"]
+            if len(fq) == 1:
+                ctor_by_pair[name] = (dec, given, at_of(dec, fq[0]))
             ck.ob(R2, dec.key(None, "from-qualified-name"), okq, "the reference is rebuilt from its qualified name, partials and parameter names" if okq else
                   "decode_fn_reference does not pass (qualified_name, partial_args, partial_kwargs, parameter_names)", dec.where())
+
+    def emitted_alts(name, field):
+        enc, d = em_by_pair[name]
+        out = []
+        for (v, a_) in d.get(field, []):
+            out += [(enc.expand(x, a2), a2) for (x, a2) in alternatives(enc, v, a_)]
+        return enc, out
+
+    def restored_alts(name, param):
+        if name not in ctor_by_pair:
+            return None, []
+        dec, given, at = ctor_by_pair[name]
+        if param not in given:
+            return dec, []
+        return dec, [(dec.expand(x, a2), a2) for (x, a2) in alternatives(dec, given[param], at)]
+
+    def is_state_read(dec, e, field):
+        return _state_key_of(dec, e, None, _first_param(dec, "state")) == field
+
     # memento time instant / enum by name
-    em = FA(ck, MC + ".encode_memento")
-    dm = FA(ck, MC + ".decode_memento")
-    okt = "encode_datetime(memento.time)" in A.norm(em.node) and "decode_datetime(state['time'])" in A.norm(dm.node)
+    em, t_out = emitted_alts("memento", "time")
+    dm, t_in = restored_alts("memento", "time")
+    mp = _first_param(em, "memento")
+    okt = bool(t_out) and all(isinstance(x, ast.Call) and A.call_attr(x) == "encode_datetime" and len(x.args) == 1 and _is_chain(em, x.args[0], a_, mp, ["time"]) for (x, a_) in t_out) \
+        and bool(t_in) and all(isinstance(x, ast.Call) and A.call_attr(x) == "decode_datetime" and len(x.args) == 1 and is_state_read(dm, x.args[0], "time") for (x, a_) in t_in)
     ck.ob(R1, em.key(None, "time-codec"), okt, "time goes through the datetime codec both ways" if okt else "memento.time is not encoded/decoded with the datetime codec", em.where())
-    ei = FA(ck, MC + ".encode_invocation_metadata")
-    di = FA(ck, MC + ".decode_invocation_metadata")
-    okr = "obj.result_type.name" in A.norm(ei.node) and "ResultType[state['resultType']]" in A.norm(di.node) \
-        and "obj.runtime.total_seconds()" in A.norm(ei.node) and "timedelta(seconds=state['runtimeSeconds'])" in A.norm(di.node)
+    ei, rt_out = emitted_alts("invocation_metadata", "resultType")
+    _, rs_out = emitted_alts("invocation_metadata", "runtimeSeconds")
+    di, rt_in = restored_alts("invocation_metadata", "result_type")
+    _, rs_in = restored_alts("invocation_metadata", "runtime")
+    ip = _first_param(ei, "obj")
+    okr = bool(rt_out) and all(_is_chain(ei, x, a_, ip, ["result_type", "name"]) for (x, a_) in rt_out) \
+        and bool(rs_out) and all(isinstance(x, ast.Call) and not x.args and not x.keywords and _is_chain(ei, x.func, a_, ip, ["runtime", "total_seconds"]) for (x, a_) in rs_out) \
+        and bool(rt_in) and all(isinstance(x, ast.Subscript) and A.norm(x.value) == "ResultType" and is_state_read(di, x.slice, "resultType") for (x, a_) in rt_in) \
+        and bool(rs_in) and all(isinstance(x, ast.Call) and A.call_attr(x) == "timedelta" and not x.args and len(x.keywords) == 1 and x.keywords[0].arg == "seconds"
+                                and is_state_read(di, x.keywords[0].value, "runtimeSeconds") for (x, a_) in rs_in)
     ck.ob(R1, ei.key(None, "enum-and-runtime"), okr, "result type travels by name, runtime as seconds" if okr else
           "result type / runtime are not encoded as (name, seconds) and decoded the same way", ei.where())
 
     # datetimes are written as they are: no zone / precision conversion before isoformat()
     ed = FA(ck, MC + ".encode_datetime")
+    edp = _first_param(ed, "obj")
     for r in ed.returns():
         d = ed.deps(r.value)
-        only_param = all(x.kind == "param" for i in ed.nodes(r) for x in ed.df.reaching(i, "obj"))
+        only_param = all(x.kind == "param" for i in ed.nodes(r) for x in ed.df.reaching(i, edp))
         conv = sorted({x[5:] for x in d if x.startswith("call:") and x[5:] in ("astimezone", "utcfromtimestamp", "fromtimestamp", "timestamp", "date", "time", "combine", "normalize", "tz_convert", "tz_localize")})
-        ok = "call:isoformat" in d and "param:obj" in d and only_param and not conv
+        ok = "call:isoformat" in d and ("param:" + edp) in d and only_param and not conv
         ck.ob(R1, ed.key(r, "datetime-as-is"), ok, "the datetime is written as obj.isoformat() (zone and precision untouched)" if ok else
               "encode_datetime converts the value before writing it (%s): the decoded datetime has another offset, so the argument hash "
               "recomputed from the decoded arguments differs from the stored one" % (conv or "obj is reassigned"), ed.where(r))
@@ -207,32 +610,36 @@ def check(ck):
     da = FA(ck, MC + ".decode_arg")
     tags_out = set()
     shapes_ok = True
-    for dd in [n for n in A.walk_body(ea.node) if isinstance(n, ast.Dict)]:
-        ks = [A.const_str(k) for k in dd.keys]
-        if "type" in ks:
-            emitted |= set(ks)
+    for dd in [n for n in A.walk_body(ea.node) if _dict_items(n) is not None]:
+        items = _dict_items(dd)
+        ks = [k for k, _ in items]
+        if "type" in ks and ea.nodes(dd):
+            emitted |= {k for k in ks if k is not None}
             if not set(ks) <= {"type", "value"}:
                 shapes_ok = False
-            tv = dd.values[ks.index("type")]
-            t = A.norm(tv)
-            if t.startswith("ResultType.") and t.endswith(".name"):
-                tags_out.add(t.split(".")[1])
-            elif A.const_str(tv):
-                tags_out.add(A.const_str(tv))
-            elif isinstance(tv, ast.Name):
-                for s in ea.stmts(ast.Assign):
-                    if any(isinstance(x, ast.Name) and x.id == tv.id for x in s.targets):
-                        tt = A.norm(s.value)
-                        if tt.startswith("ResultType.") and tt.endswith(".name"):
-                            tags_out.add(tt.split(".")[1])
+            tags_out |= _tags(ea, items[ks.index("type")][1], ea.nodes(dd)[0])
     tags_in = set()
+    dap = _first_param(da, "state")
+
+    def is_type_field(e, at):
+        x = da.expand(e, at)
+        return _state_key_of(da, x, None, dap) == "type"
+
     for n in A.walk_body(da.node):
-        if isinstance(n, ast.Compare) and isinstance(n.ops[0], ast.Eq) and da.nodes(n) and da.xnorm(n.left, da.nodes(n)[0]) == "state['type']":
-            t = A.norm(n.comparators[0])
-            if t.startswith("ResultType.") and t.endswith(".name"):
-                tags_in.add(t.split(".")[1])
-            elif A.const_str(n.comparators[0]):
-                tags_in.add(A.const_str(n.comparators[0]))
+        if isinstance(n, ast.Compare) and len(n.ops) == 1 and da.nodes(n):
+            at = da.nodes(n)[0]
+            l, r, op = n.left, n.comparators[0], n.ops[0]
+            if isinstance(op, (ast.Eq, ast.NotEq)):
+                if is_type_field(l, at):
+                    tags_in |= _tags(da, r, at)
+                elif is_type_field(r, at):
+                    tags_in |= _tags(da, l, at)
+            elif isinstance(op, (ast.In, ast.NotIn)) and is_type_field(l, at):
+                elts = _elements(da, r, at)
+                if elts is None:
+                    raise AnalysisError("%s: `%s` tests the argument tag against something other than a literal collection" % (da.qual, A.short(n, 60)))
+                for e in elts:
+                    tags_in |= _tags(da, e, None if e not in list(ast.walk(r)) else at)
     ck.ob(R3, ea.key(None, "arg-shape"), shapes_ok, "arguments are {type, value} objects" if shapes_ok else
           "an argument encoding has fields other than type/value", ea.where())
     ck.ob(R3, da.key(None, "tags"), tags_out == tags_in and FN_REF_TAG in tags_out, "%d argument tags agree (incl. the function-reference tag)" % len(tags_out) if tags_out == tags_in and FN_REF_TAG in tags_out else
@@ -244,13 +651,21 @@ def check(ck):
           "tags %s are not ResultType members" % sorted(tags_out - {FN_REF_TAG} - members), ea.where())
     ck.ob(R3, MC + "::wire-fields", emitted == WIRE_FIELDS, "the %d emitted field names equal the cross-language table" % len(emitted) if emitted == WIRE_FIELDS else
           "wire format changed: new/renamed %s, missing %s" % (sorted(emitted - WIRE_FIELDS), sorted(WIRE_FIELDS - emitted)), "twosigma/memento/serialization.py")
-    # nested arguments go through encode_arg / decode_arg
-    for fa, fn in ((FA(ck, MC + ".encode_fn_reference_with_args"), "encode_arg"), (FA(ck, MC + ".decode_fn_reference_with_args"), "decode_arg"),
-                   (FA(ck, MC + ".encode_fn_reference"), "encode_arg"), (FA(ck, MC + ".decode_fn_reference"), "decode_arg")):
-        n = len(fa.calls(fn))
-        want = 3 if "with_args" in fa.qual else 2
-        ck.ob(R3, fa.key(None, "typed-args"), n == want, "all %d argument collections use %s" % (want, fn) if n == want else
-              "%s uses %s for %d of %d argument collections" % (fa.fi.name, fn, n, want), fa.where())
+    # nested arguments go through encode_arg / decode_arg: every argument collection's value flows through the typed codec
+    for (name, fields, cparams_) in (("fn_reference_with_args", ("args", "kwargs", "contextArgs"), ("args", "kwargs", "context_args")),
+                                     ("fn_reference", ("partialArgs", "partialKwargs"), ("partial_args", "partial_kwargs"))):
+        enc, d = em_by_pair[name]
+        typed = [f for f in fields if d.get(f) and all(_calls_in_flow(enc, v, a_, "encode_arg") for (v, a_) in d[f])]
+        n, want = len(typed), len(fields)
+        ck.ob(R3, enc.key(None, "typed-args"), n == want, "all %d argument collections use %s" % (want, "encode_arg") if n == want else
+              "%s uses %s for %d of %d argument collections" % (enc.fi.name, "encode_arg", n, want), enc.where())
+        dec = FA(ck, "%s.decode_%s" % (MC, name))
+        n = 0
+        if name in ctor_by_pair:
+            _, given, at = ctor_by_pair[name]
+            n = len([p for p in cparams_ if p in given and _calls_in_flow(dec, given[p], at, "decode_arg")])
+        ck.ob(R3, dec.key(None, "typed-args"), n == want, "all %d argument collections use %s" % (want, "decode_arg") if n == want else
+              "%s uses %s for %d of %d argument collections" % (dec.fi.name, "decode_arg", n, want), dec.where())
 
     ck.run(check_versioned_key_codec, ck, R4)
     # a decoded reference is rebuilt by parsing its qualified name: the parser's delimiter discipline
